@@ -65,6 +65,12 @@ Proof.
   - rewrite Hb; [reflexivity|]. destruct e; try exact I; destruct H.
 Qed.
 
+Lemma mle_with_label sc body body' : (forall l, mle (body l) (body' l)) -> mle (with_label sc body) (with_label sc body').
+Proof.
+  intros Hb. unfold with_label. apply mle_with_cell; [|intros; apply mle_refl].
+  intros c. apply mle_catch_break. apply Hb.
+Qed.
+
 Lemma mle_or_else a a' b b'  : mle a a' -> mle b b' -> mle (or_else a b) (or_else a' b').
 Proof.
   intros Ha Hb s H. unfold or_else in *. destruct (a s) as [[x|e] s1] eqn:E.
@@ -179,6 +185,7 @@ Ltac mono_step HE :=
     | apply mle_catch_break
     | apply mle_or_else
     | apply mle_with_cell; intro
+    | apply mle_with_label; intro
     | apply mle_down
     | apply mle_guard
     | apply mle_lift; intro
@@ -393,11 +400,11 @@ Definition q_break (x : bytes) : query := q_term (TBreak x).
 Lemma label_break_law n rho x t c B v ps k :
   meq (eval_q bs (S (S (S (S (S (S n)))))) rho
          (q_term (TLabel x (q_bin (q_lit t c) OpComma (q_bin (q_break x) OpComma B)))) v ps k)
-      (l <- fresh ;; catch_break l (k (plain (VNum c)) ps ;; raise (XBreak l))).
+      (with_label (scoped_ids ps) (fun l => k (plain (VNum c)) ps ;; raise (XBreak l))).
 Proof.
   intros s. unfold eval_q, q_lit, q_break, q_term, q_bin.
   cbn [evals_n step ev_q step_eval_q push_defs fold_left ev_t step_eval_t rev app lookup_label].
-  rewrite list_N_eqb_refl. unfold bind, fresh, catch_break, raise.
+  rewrite list_N_eqb_refl. unfold with_label, with_cell, bind, catch_break, raise, ret.
   destruct (k (plain (VNum c)) ps _) as [[[]|e] s1]; reflexivity.
 Qed.
 
@@ -442,7 +449,7 @@ Lemma first_law n rho t c g v ps k :
   lookup_fun rho (codes "first") 1 = None ->
   lookup_builtin bs (codes "first") 1 = Some first_def ->
   meq (eval_q bs (12 + n) rho (q_call (codes "first") [q_bin (q_lit t c) OpComma g]) v ps k)
-      (tick ;; l <- fresh ;; catch_break l (tick ;; (k (plain (VNum c)) ps ;; raise (XBreak l)))).
+      (tick ;; with_label (scoped_ids ps) (fun l => tick ;; (k (plain (VNum c)) ps ;; raise (XBreak l)))).
 Proof.
   intros H1 H2 s. unfold eval_q, q_call, q_lit, q_term, q_bin.
   cbn [evals_n step ev_q step_eval_q push_defs fold_left ev_t step_eval_t rev app ev_call Nat.add].
@@ -458,7 +465,7 @@ Proof.
   replace (Nat.eqb 0 0 && list_N_eqb (strip_dollar (codes "g")) (codes "g")) with true by reflexivity.
   cbn [evals_n step ev_q step_eval_q push_defs fold_left ev_t step_eval_t rev app ev_call lookup_label].
   replace (list_N_eqb (codes "$out") (codes "$out")) with true by reflexivity.
-  unfold bind, tick, fresh, catch_break, raise.
+  unfold with_label, with_cell, bind, tick, catch_break, raise, ret.
   destruct (steps s); [reflexivity|]. cbn [steps outs nout cap nextid inputs cells repsens].
   destruct (N.pred (N.pos p)); [reflexivity|]. cbn [steps outs nout cap nextid inputs cells repsens].
   destruct (k (plain (VNum c)) ps _) as [[[]|e] s1]; reflexivity.
